@@ -980,6 +980,15 @@ impl<'env> Executor<'env> {
             Error::new(ErrorKind::InvalidOperation, "cannot super outside of block")
         }));
 
+        // an included template runs with its own block table: the block that is
+        // being rendered around the include is not part of it.
+        if !state.blocks.contains_key(name) {
+            return Err(Error::new(
+                ErrorKind::InvalidOperation,
+                "cannot super outside of block",
+            ));
+        }
+
         if !state.blocks.get_mut(name).unwrap().push() {
             return Err(Error::new(
                 ErrorKind::InvalidOperation,
